@@ -1,0 +1,16 @@
+//go:build verif
+
+package sleep
+
+import "os"
+
+// VerifSnapshot returns the in-memory state together with the raw content of
+// the persisted state file, both read while holding stateMu for reading, so
+// that no Sleep/Wake/Poll critical section is half-way through between the
+// two reads. Read-only; used by the /verif simulation harness only.
+func (m *Manager) VerifSnapshot() (State, []byte, error) {
+	m.stateMu.RLock()
+	defer m.stateMu.RUnlock()
+	data, err := os.ReadFile(m.stateFile)
+	return m.state.Load().(State), data, err
+}
